@@ -53,15 +53,46 @@ def ipString : Option (List Nat) → String
   | none => "none"
   | some fs => "ip " ++ joinList (fs.map toString)
 
+/-- `server=loop|handler`: the serving path (absent = the connection loop, answered by the pipeline verbs as before) -/
+def decodeServer (t : List String) : Option (Option ServerVariant) :=
+  match kv t "server" with
+  | none => some none
+  | some "loop" => some (some .connLoop)
+  | some "handler" => some (some .handler)
+  | some _ => none
+
+/-- `<outcome> # <actions> [# <error headers>]` of a non-CONNECT request on a serving path; `nohost` = the
+    proxy's own error response after the modifiers passed (no URL host to dial), `srvbadreq` = net/http's
+    server answered 400 itself -/
+def answerRequestV (v : ServerVariant) (cfg : Cfg) (ctx : Ctx) (r : Request) : String :=
+  let acts := encodeActions (requestActionsV v cfg ctx r)
+  match processRequestV v cfg ctx r with
+  | .served o =>
+    let base := s!"{encodeOutcome o} # {acts}"
+    match o with
+    | .refused _ why => s!"{base} # {encodeErrorHeaders cfg why}"
+    | _ => base
+  | .serverRefused => s!"srvbadreq # {acts}"
+  | .noHost => s!"nohost # {acts}"
+
+def answerConnectV (v : ServerVariant) (cfg : Cfg) (ctx : Ctx) (c : ConnectReq) : String :=
+  let o := processConnectV v cfg ctx c
+  let base := s!"{encodeConnectOutcome o} # {encodeActions (connectActionsV v cfg ctx c)}"
+  match o with
+  | .refused _ why => s!"{base} # {encodeErrorHeaders cfg why}"
+  | _ => base
+
 def handle : List String → String
   | "request" :: toks =>
-    match decodeCfg toks, decodeCtx toks, decodeReq toks with
-    | some cfg, some ctx, some r => answerRequest cfg ctx r
-    | _, _, _ => "bad-op"
+    match decodeCfg toks, decodeCtx toks, decodeReq toks, decodeServer toks with
+    | some cfg, some ctx, some r, some none => answerRequest cfg ctx r
+    | some cfg, some ctx, some r, some (some v) => answerRequestV v cfg ctx r
+    | _, _, _, _ => "bad-op"
   | "connect" :: toks =>
-    match decodeCfg toks, decodeCtx toks, decodeConnect toks with
-    | some cfg, some ctx, some c => answerConnect cfg ctx c
-    | _, _, _ => "bad-op"
+    match decodeCfg toks, decodeCtx toks, decodeConnect toks, decodeServer toks with
+    | some cfg, some ctx, some c, some none => answerConnect cfg ctx c
+    | some cfg, some ctx, some c, some (some v) => answerConnectV v cfg ctx c
+    | _, _, _, _ => "bad-op"
   | ["islocal", names, host] =>
     match bytesList names, bytesOfHex host with
     | some ns, some h =>
